@@ -675,7 +675,7 @@ def main(tier, seed, only=None):
 
   units = [("reference", unit_reference), ("lemma/poly", unit_lemma_poly)]
   units += [unit_damper_dof(jt, off) for jt in (SLIDE, BALL, FREE) for off in (False, True)]
-  units += [unit_damper_tendon(1, 2)] if tier != "thorough" else [unit_damper_tendon(1, 3), unit_damper_tendon(2, 2)]
+  units += [unit_damper_tendon(1, 2)] if tier != "thorough" else [unit_damper_tendon(1, 3), unit_damper_tendon(2, 1)]
   if only:
     units = [u for u in units if any(o in u[0] for o in only)]
   return report.run_check(PID, units, tier, seed)
